@@ -20,7 +20,9 @@ Scr(s, more, oneway) == Req(ScriptKind, more, oneway, FALSE, s)
 
 WellFormedKinds == BuiltinKinds \cup RouteKinds \cup GenKinds
 
-RepScripts == { <<"r">>, <<"c1", "r", "c0", "r">>, <<"c1", "r">>, <<"e">>, <<"x">>, <<"c1", "R", "c0", "r">>, <<"n">>, <<"c1", "n">> }
+RepScripts == { <<"r">>, <<"c1", "r", "c0", "r">>, <<"c1", "r">>, <<"e">>, <<"x">>, <<"c1", "R", "c0", "r">>, <<"n">>, <<"c1", "n">>,
+                \* upgrading methods: the reply comes before or after to_upgraded()
+                <<"r", "u">>, <<"u", "r">> }
 
 AlphaFull ==
      {None(k) : k \in WellFormedKinds \cup MalformedKinds}
